@@ -8,6 +8,7 @@ from __future__ import annotations
 import asyncio
 import itertools
 import random
+import time
 
 from .. import core
 from ..core import Family, cps
@@ -311,6 +312,22 @@ class Live(Family):
             if kind == "drop":
                 case["drop_at"] = rng.randrange(nh)
             case["code"] = rng.choice([30, 31, 31])
+            if kind == "chain" and rng.random() < 0.25:
+                # the last hop redirects to a RELATIVE reference: never a gemini:// URL, so it is returned to the caller as it is
+                case["kind"] = "relative"
+                case["target"] = rng.choice(["/x", "../x", "x", "?q=1", "//other.example/x", "./a;b", "/x?", ""])
+            if case["kind"] != "locked" and rng.random() < 0.3:
+                # servers that speak first: the response is sent right after the handshake, without waiting for the request
+                for h in hops:
+                    h["eager"] = rng.random() < 0.5
+                    h["tls12"] = h["eager"] and rng.random() < 0.6      # TLS 1.2: the response can ride on the server's last handshake flight
+            if case["kind"] == "revisit-swap" and rng.random() < 0.6:
+                # the host that comes back with another certificate speaks first, on TLS 1.2: its answer is in the client's hands before
+                # the client has looked at the certificate
+                hops[-1]["eager"], hops[-1]["tls12"] = True, True
+            if case["kind"] in ("chain", "loop", "nongemini", "relative") and rng.random() < 0.25:
+                # through the command line (`nauyaca get`), plain and --verbose
+                case["via"] = rng.choice(["cli", "cli-v"])
             if kind in ("chain", "loop", "nongemini") and rng.random() < 0.35:
                 # the same client object is used for a second fetch of the same URL (other follow / max settings): it is a
                 # fresh fetch - nothing remembered from the first one may replace a connection or a response
@@ -347,6 +364,10 @@ class Live(Family):
                     return {"r": ["error", "loop"], "conns": conns}
                 if case["kind"] == "nongemini":
                     return {"r": ["redirect", 31, "https://example.org/"], "conns": conns}
+                if case["kind"] == "relative":
+                    if case["target"] == "" and case["follow"]:
+                        return {"r": ["error", "valueerror:Redirect response missing URL: "], "conns": conns}
+                    return {"r": ["redirect", code, case["target"]], "conns": conns}
                 return {"r": ["final", case["final"]], "conns": conns}
             if not case["follow"]:
                 return {"r": ["redirect", code, urls[j + 1]], "conns": conns}
@@ -382,6 +403,8 @@ class Live(Family):
                 if last:
                     if case["kind"] == "loop":
                         line = f"{code} {urls[0]}\r\n".encode()
+                    elif case["kind"] == "relative":
+                        line = f"{code} {case['target']}\r\n".encode()
                     elif case["kind"] == "nongemini":
                         line = b"31 https://example.org/\r\n"
                     else:
@@ -389,9 +412,14 @@ class Live(Family):
                 else:
                     line = f"{code} {urls[j + 1]}\r\n".encode()
                 steps = [["read_request", 1.0], ["send", line], ["close_notify"]]
+                if h.get("eager"):
+                    steps = [["send", line], ["read_request", 0.3], ["close_notify"]]
                 if case["kind"] == "locked" and j == len(hops) - 2 and hook:
                     steps.insert(1, ["call", hook[0]])
-                peers[h["peer"]].push(h["cert"], steps)
+                if h.get("eager") and h.get("tls12"):
+                    peers[h["peer"]].push(h["cert"] + "@12", [], with_finished=line)      # the response rides on the server's Finished
+                else:
+                    peers[h["peer"]].push(h["cert"], steps)
 
         def collect():
             logs = []
@@ -481,7 +509,32 @@ class Live(Family):
                     o2["r"] = r2
                 return o1, o2
 
-            o1, o2 = asyncio.run(both())
+            if case.get("via"):
+                # the command line: `nauyaca get URL --max-redirects N [--no-redirects] [--verbose]` with a private HOME (its pin store)
+                import os
+
+                from typer.testing import CliRunner
+
+                from nauyaca.__main__ import app
+
+                push_all()
+                args = ["get", urls[0], "--max-redirects", str(case["max"]), "--timeout", "5"] + ([] if case["follow"] else ["--no-redirects"]) \
+                    + (["--verbose"] if case["via"] == "cli-v" else [])
+                old_home = os.environ.get("HOME")
+                os.environ["HOME"] = d
+                try:
+                    res = CliRunner().invoke(app, args)
+                finally:
+                    if old_home is None:
+                        os.environ.pop("HOME", None)
+                    else:
+                        os.environ["HOME"] = old_home
+                time.sleep(0.05)
+                o1 = collect()
+                o1["r"] = ["cli", res.exit_code, (res.output or "")[-160:]]
+                o2 = None
+            else:
+                o1, o2 = asyncio.run(both())
         finally:
             if case["kind"] == "locked":
                 tofu_mod.sqlite3 = real_sqlite
@@ -514,22 +567,35 @@ class Live(Family):
                 return ("scheme", f"requested {c!r}")
         want_conns = exp["conns"]
         got = obs["conns"]
+        eager = [bool(h.get("eager")) for h in case["hops"]]
+
+        def seq_ok(g, w):
+            # a server that speaks first may have answered (and been hung up on) before the request line left the client
+            return len(g) == len(w) and all(a == b or (a == "" and eager[i]) for i, (a, b) in enumerate(zip(g, w)))
+
         if exp.get("silent"):
             # the hop whose certificate changed must have received no request bytes at all
-            if len(got) != len(want_conns) or got[-1] != "" or got[:-1] != want_conns[:-1]:
+            if len(got) != len(want_conns) or got[-1] != "" or not seq_ok(got[:-1], want_conns[:-1]):
                 return ("pin-not-checked", f"a pinned host presented another certificate on hop {len(want_conns)}: requests seen {got}, result {obs['r']}")
-        elif got != want_conns:
+        elif not seq_ok(got, want_conns):
             return ("connections", f"connections {got}, expected {want_conns} (result {obs['r']}, expected {exp['r']})")
         if exp["r"] == ["error", "*"]:
             if obs["r"][0] != "error":
                 return ("pin-not-checked", f"the pin store could not be read when hop {len(want_conns)} (pinned with another certificate) was reached, yet the fetch returned {obs['r']}")
+            return None
+        if obs["r"][0] == "cli":
+            # through the command line only the exit status is compared: 0 for a response below 40 (final or a 3x handed back), 1 otherwise
+            want_exit = 0 if (exp["r"][0] in ("final", "redirect") and exp["r"][1] < 40) else 1
+            if obs["r"][1] != want_exit:
+                return ("result", f"`nauyaca get{' --verbose' if case.get('via') == 'cli-v' else ''}` exited {obs['r'][1]}, expected {want_exit}: the fetch should give {exp['r']} "
+                                  f"({case['kind']} chain of {len(case['hops'])} hops, --max-redirects {case['max']}{'' if case['follow'] else ' --no-redirects'}); output {obs['r'][2]!r}")
             return None
         if obs["r"] != exp["r"]:
             return ("result", f"result {obs['r']}, expected {exp['r']} for {case['kind']} chain of {len(case['hops'])} hops, max {case['max']}")
         return None
 
     def key(self, case, obs):
-        return f"{case['kind']}|{obs['r'][0]}:{obs['r'][1]}|tcp{obs['tcp']}|follow{int(case['follow'])}"
+        return f"{case['kind']}{'/' + case['via'] if case.get('via') else ''}|{obs['r'][0]}:{obs['r'][1]}|tcp{obs['tcp']}|follow{int(case['follow'])}"
 
 
 FAMILIES = [Graph(), Overlap(), Live()]
